@@ -125,6 +125,50 @@ theorem pool_release_reuse (n r : Nat) (ops : List Op) (b : BufId) (p' : Pool) :
     exact ⟨_, rfl, rfl, rfl⟩
   · cases hr
 
+/-- one operation never shrinks the storage of an existing buffer and never forgets a buffer id -/
+theorem step_capacity_monotone (p : Pool) (op : Op) (b : BufId) (hb : b < p.next) :
+    p.cap b ≤ (step p op).cap b ∧ p.next ≤ (step p op).next := by
+  cases op with
+  | get =>
+    have hne : b ≠ p.next := by omega
+    cases hidle : p.idle with
+    | nil =>
+      by_cases hlim : p.busy.length ≤ p.maxM1
+      · simp [step, get, hidle, hlim, upd, hne]
+      · simp [step, get, hidle, hlim]
+    | cons b0 rest => simp [step, get, hidle]
+  | rel b' =>
+    by_cases hin : b' ∈ p.busy <;> simp [step, recycle, hin]
+  | fill b' m =>
+    by_cases hin : b' ∈ p.busy
+    · by_cases hbb : b = b'
+      · subst hbb; simp [step, fill, hin, upd]; omega
+      · simp [step, fill, hin, upd, hbb]
+    · simp [step, fill, hin]
+
+/-- "with its storage intact", over whole histories: whatever Get / release / write
+operations follow, in any order and on any thread, the capacity of a buffer the pool
+owns never shrinks (so a recycled buffer still has everything it ever reserved or grew to). -/
+theorem pool_capacity_monotone (p : Pool) (ops : List Op) (b : BufId) (hb : b < p.next) :
+    p.cap b ≤ (run p ops).cap b ∧ p.next ≤ (run p ops).next := by
+  induction ops generalizing p with
+  | nil => simp [run]
+  | cons op ops ih =>
+    have h1 := step_capacity_monotone p op b hb
+    have h2 := ih (step p op) (by omega)
+    simp only [run, List.foldl_cons] at h2 ⊢
+    omega
+
+/-- pre-allocated pools: after any history every Get still yields a buffer that is empty and
+has at least the reserved capacity, and at least what the user grew it to earlier -/
+theorem pool_get_keeps_growth (n r : Nat) (ops1 ops2 : List Op) (b : BufId)
+    (hb : b < (run (create n r) ops1).next) :
+    (run (create n r) ops1).cap b ≤ (run (create n r) (ops1 ++ ops2)).cap b := by
+  have := pool_capacity_monotone (run (create n r) ops1) ops2 b hb
+  simpa [run, List.foldl_append] using this.1
+
+example : (run (create 1 8) [.get, .fill 0 100, .rel 0, .get]).cap 0 = 100 := by decide
+
 /-- releasing is possible exactly for outstanding buffers, in any order -/
 theorem pool_release_any_order (p : Pool) (b : BufId) :
     (recycle p b).isSome ↔ b ∈ p.busy := by
